@@ -486,10 +486,12 @@ class Unit:
             if lc:
                 if '$LV' in lc and not m.group(3):
                     raise ExtractError('loop contract uses $LV but the loop declares no induction variable')
-                lc = subst(lc.replace('$LV', m.group(3)), em.sig_info[fn['id']]['params'])
+                if '$LR' in lc and not m.group(4):
+                    raise ExtractError('loop contract uses $LR but the loop does not walk a modelled range')
+                lc = subst(lc.replace('$LV', m.group(3)).replace('$LR', m.group(4) or ''), em.sig_info[fn['id']]['params'])
                 self._loops_applied += 1
             return (lc + '\n') if lc else ''
-        return re.sub(r'/\*LOOP:([A-Za-z0-9_]+):(\d+):([A-Za-z0-9_]*)\*/\n', rep, text)
+        return re.sub(r'/\*LOOP:([A-Za-z0-9_]+):(\d+):([A-Za-z0-9_]*):?([A-Za-z0-9_]*)\*/\n', rep, text)
 
     def write_facts(self, facts):
         """B: values computed by g++ on the real headers (sizeof of records, constexpr variable templates)"""
